@@ -267,6 +267,11 @@ func (s *Session) OpenStream() (*Stream, error) {
 	// Register the stream
 	stream := newStream(s, id)
 	s.streamLock.Lock()
+	if s.streams == nil {
+		// the session was shut down and torn down after the IsClosed check above
+		s.streamLock.Unlock()
+		return nil, ErrSessionShutdown
+	}
 	if _, ok := s.streams[id]; ok {
 		s.streamLock.Unlock()
 		return nil, ErrStreamsExhausted
